@@ -485,6 +485,38 @@ def r02g(ctx, run):
                   "the slot a register-returned aggregate is spilled into must be created for this very call (create_sized_stack_slot in handle_ret); found %s" % show_chain(ch, 4)[:100])
 
 
+def r02h(ctx, run):
+    """a value is complete before it overwrites something: the in-place builders (compile_and_cast_into_memory / store_expr_in_memory write the members
+    of a struct or array literal one by one into the memory they are given, evaluating each member expression in between) are only handed FRESH memory -
+    a stack slot created for the purpose, the caller's return area, a data object - never the address of an existing value.  `s = S.{ a = s.b, b = s.a }`
+    built in place in `s` reads `s.a` after it was overwritten."""
+    F = ctx.facts
+    BUILDERS = ("compile_and_cast_into_memory", "store_expr_in_memory")
+    FAMILY = ("store_expr_in_memory", "store_struct_fields", "store_array_items", "compile_and_cast_into_memory")
+    n = 0
+    for fn in F.fns:
+        if fn.crate != "codegen":
+            continue
+        owner = short(strip_generics(fn.path))
+        if owner in FAMILY:
+            continue
+        for c in fn.calls():
+            if short(c.callee) not in BUILDERS or "FunctionCompiler" not in c.callee:
+                continue
+            n += 1
+            mem = fn.chain_operand(c.args[-1], depth=12)
+            calls = [short(x["callee"]) for x in walk_chain(mem) if x.get("kind") == "call"]
+            fresh = any(x in calls for x in ("create_sized_stack_slot", "block_params", "symbol_value", "unwrap_or_alloca"))
+            lvalue = any(x in calls for x in ("compile_expr_with_args", "compile_expr"))
+            run.check(fresh and not lvalue, c.site(), "%s builds in place into fresh memory (%s)" % (owner, [x for x in calls if x in ("create_sized_stack_slot", "block_params", "symbol_value")][:1]),
+                      strip_generics(fn.path), "in-place-into-existing:" + owner, c.file, c.ln,
+                      "%s hands %s the address of an existing value (%s): the literal's members are written one by one while the remaining member expressions are still "
+                      "evaluated, so an expression that reads the destination sees it half overwritten (`s = S.{ a = s.b, b = s.a }` gives { 2, 2 })"
+                      % (owner, short(c.callee), show_chain(mem, 4)[:70]))
+    if n < 4:
+        raise LookupError("callers of the in-place builders: %d" % n)
+
+
 def rules(ctx):
     return [
         Rule("R02.a", "tag stores/loads (offset derived from discriminant_offset) move exactly one byte", 9, r02a),
@@ -492,6 +524,7 @@ def rules(ctx):
         Rule("R02.c", "aggregate copies are bounded by the destination type's size(), not stride()", 6, r02c),
         Rule("R02.d", "raw Cranelift stores only in MemoryLoc, the ABI module and reviewed scalar-slot sites", 25, r02d),
         Rule("R02.e", "every local definition and every by-value aggregate parameter is bound to a stack slot created for it (no shared storage)", 2, r02e),
+        Rule("R02.h", "in-place construction of aggregates only into fresh memory: an assignment's value is complete before the destination is written", 4, r02h),
         Rule("R02.g", "stack slots are created per use site, never cached in a container; a call's spill slot is created for that call", 2, r02g),
         Rule("R02.f", "every MemoryLoc::write_all receives a value already converted to the type it is told to store", 5, r02f),
     ]
